@@ -153,6 +153,26 @@ def c06_2(rep, ix):
     return outer
 
 
+def lazy_producer(ix, f, e):
+    """why the iterable e produces its elements lazily by evaluating script expressions (None if it does not)"""
+    evals = ("_expression(", "_literal(")
+    if isinstance(e, ast.GeneratorExp) and any(x in u(e) for x in evals):
+        return "a generator expression evaluates the header expressions one at a time, between the bindings"
+    if isinstance(e, ast.Call) and u(e.func) in ("map", "filter", "iter") and any(x in u(e) for x in evals + ("_expression", "_literal")):
+        return "%s(...) evaluates the header expressions one at a time, between the bindings" % u(e.func)
+    if isinstance(e, ast.Call):
+        g = None
+        if isinstance(e.func, ast.Name):
+            g = ix.funcs.get(ix.resolve_name(f.mod, e.func.id))
+        elif isinstance(e.func, ast.Attribute) and isinstance(e.func.value, ast.Name) and e.func.value.id in ("self", "cls") and f.cls:
+            g = ix.funcs.get("%s.%s" % (f.cls, e.func.attr))
+        if g is not None:
+            gn = getattr(g, "orig", None) or g.node
+            if any(isinstance(x, (ast.Yield, ast.YieldFrom)) for x in ast.walk(gn)) and any(x in u(gn) for x in evals):
+                return "%s is a generator: the header expressions are evaluated one at a time, between the bindings" % g.qual
+    return None
+
+
 # -------------------------------------------------------------------------------------- C06.3 header
 def c06_3(rep, ix, G):
     R = "C06.3"
@@ -237,6 +257,23 @@ def c06_3(rep, ix, G):
         leak = [s_ for s_ in stmts_app if Reach(fake, s_, aliases=False).may_reach(atom_sep)]
         rep.check(stmts_app and not leak, R, ix.site(ex, vl), "separator tokens are skipped: nothing is appended for a child that is not a ValContext",
                   "`%s` is reachable for a separator" % (" ".join(u(leak[0]).split())[:60] if leak else ""), key="vallist filter")
+    # the header is evaluated completely before the first value is bound: a lazy producer (generator function, generator expression,
+    # map) that evaluates header expressions while the loop below rebinds the variable sees the new bindings
+    orig = getattr(ex, "orig", None) or ex.node
+    for l in walk_shallow(orig):
+        if not isinstance(l, ast.For):
+            continue
+        binds = [x for x in ast.walk(l) if isinstance(x, ast.Assign) and isinstance(x.targets[0], ast.Subscript) and u(x.targets[0].value) == TABLE]
+        if not binds:
+            continue
+        it = l.iter
+        if isinstance(it, ast.Name):
+            ds = [a for a in walk_shallow(orig) if isinstance(a, ast.Assign) and any(isinstance(t, ast.Name) and t.id == it.id for t in a.targets)]
+            lazy_defs = [a.value for a in ds if lazy_producer(ix, ex, a.value)]
+            it = lazy_defs[0] if lazy_defs else it
+        lz = lazy_producer(ix, ex, it)
+        rep.check(not lz, R, ix.site(ex, l), "the values the loop runs over are all evaluated before the loop variable is first bound", "`for %s in %s`: %s" % (
+            u(l.target), " ".join(u(l.iter).split())[:60], lz), key="eager header")
     # the two header forms are dispatched on the grammar alternatives rangeval | vallist
     tests = [u(n.test) for n in walk_shallow(fn) if isinstance(n, ast.If) and u(n.test) in ("ctx.rangeval()", "ctx.vallist()", "ctx.rangeval() is not None", "ctx.vallist() is not None")]
     rep.check(any("rangeval" in t for t in tests) and (any("vallist" in t for t in tests) or True), R, ix.site(ex), "the header is dispatched on ctx.rangeval() / ctx.vallist()", key="dispatch")
